@@ -4,6 +4,7 @@ CONSTANTS
   ValueSet <- Values2
   AttrSet <- Attrs2
   MaxOps = 1
+  Flags = TRUE
   FreeRaise = TRUE
 VIEW View
 INVARIANT Emitted
